@@ -10,7 +10,7 @@ BASE_OFF = ("cd /repo && env -u NFLOWS_VERIF /venv/bin/python -m pytest -ra -q -
 # id -> (technique, level text, level note, design ref)
 CHECKS = {
     "C20": ("icontract post-conditions on the real helpers (direct exhaustive small-shape driver + contracts "
-            "installed at the library's own call sites) + TorchDispatchMode write-watch and bitwise snapshots; big-integer predicates, mixed-dtype bin search, helpers called in the non-default floating dtype; batches without rows for the reshape / repeat / sum helpers",
+            "installed at the library's own call sites) + TorchDispatchMode write-watch and bitwise snapshots; big-integer predicates, mixed-dtype bin search, helpers called in the non-default floating dtype; batches without rows for the reshape / repeat / sum helpers; mask constructors after the caller modified an earlier result; double-precision sums at 1e-12",
             "Runtime contracts evaluated on every helper for all shapes with <=4 dims and extents <=3 (<=4 thorough), "
             "four tensor layouts, structured and random values, against numpy reference semantics; argument "
             "immutability observed op-by-op. Held-on-what-was-observed, exhaustive only over the small-shape grid.",
@@ -114,7 +114,7 @@ CHECKS["C11"] = (
 CHECKS["C14"] = (
     "lock-step reference-model monitor: pure-tensor models of the documented ActNorm / BatchNorm life-cycle stepped next to the "
     "real layers over histories {train, eval, forward, inverse, save+load into a fresh instance}, exhaustive to length 4 (5 thorough) "
-    "plus random long histories; state_dict, outputs and log-dets compared after every step; each history with the layer alone or inside a container and with the mode set before or after load_state_dict",
+    "plus random long histories; state_dict, outputs and log-dets compared after every step; each history with the layer alone or inside a container and with the mode set before or after load_state_dict; initialising batches far from the origin in both precisions",
     "Every step's outputs / log-dets and the full state dict are compared with the reference (1e-10); the initialising batch's outputs "
     "must have zero mean and unit variance per feature/channel; BatchNorm must refuse its inverse in training mode and only there.",
     "The variance estimator convention (ddof) is learned from the first observation and then required to stay fixed; float64 world.",
@@ -145,7 +145,7 @@ CHECKS["C15"] = (
     "twin monitor: model A (seed s1, after a pre-save history) vs model B built from the same constructor arguments under another "
     "seed and loaded with A's state dict (strict, through torch.save/load in a BytesIO); identical call sequences (training-mode "
     "forward first, then eval forward / inverse / log_prob / sample under a common re-seed) must give bit-identical results and "
-    "state dicts; reload into an instance built with other constructor-given buffer values of the same shapes (masks, permutations, affine constants)",
+    "state dicts; reload into an instance built with other constructor-given buffer values of the same shapes (masks, permutations, affine constants); saving from a deep copy whose values moved on",
     "All zoo transform families (every source of constructor-time randomness), generic and packaged flows and all distribution classes, "
     "pre-save histories {fresh, training steps, data-dependent initialisation, eval calls filling caches}; results compared with "
     "torch.equal-on-bits; key sets compared; cases where B agreed with A even before loading are reported as trivial.",
@@ -155,7 +155,7 @@ CHECKS["C16"] = (
     "finite-difference monitor in float64: directional derivatives from back-propagation vs Richardson-extrapolated central "
     "differences (h, h/2 with kink detection and resampling) - jointly over all parameters, per parameter tensor, for inputs and "
     "context; back-propagation executed twice (also after an inverse call filled a weight cache first); finiteness at inputs with exact zeros; "
-    "float32-twin monitor (gradients of the .float() copy vs the float64 ones, norm-wise); library distributions as subjects too; sampling-path direction (sample_and_log_prob under a fixed seed as a function of context and parameters); UMNN inverse differentiability probe (open finding F-UMNN-INVERSE-GRAD); user-written bounded conditioners exposing hidden_features; first calls made under inference_mode",
+    "float32-twin monitor (gradients of the .float() copy vs the float64 ones, norm-wise); library distributions as subjects too; sampling-path direction (sample_and_log_prob under a fixed seed as a function of context and parameters); UMNN inverse differentiability probe (open finding F-UMNN-INVERSE-GRAD); user-written bounded conditioners exposing hidden_features; first calls made under inference_mode; frozen subjects; finite differences refined at smaller steps before a verdict",
     "Relative agreement 1e-5 (observed <= 4e-9) for the whole transform zoo with smooth conditioners and small flows, both directions, "
     "training and evaluation mode; a parameter whose finite difference is non-zero must receive a finite gradient; backward must "
     "succeed repeatedly.",
@@ -168,7 +168,7 @@ CHECKS["C19"] = (
     "single-precision rounding plus input rounding amplified by the local conditioning measured on the float64 twin (item Jacobian; "
     "multi-scale finite-difference sensitivity of the log-det); finiteness, no exception, result dtype = input dtype; dense element-wise "
     "runs of the four spline functions (1e5-1e6 points per family/direction incl. knots); wide linear layers (192-512 features); "
-    "late-conversion monitor (model used in float32, then .double(): must equal the twin converted before its first call); construction-time default-dtype clause (twin built under a float64 default and loaded); non-representable RQ tail bounds",
+    "late-conversion monitor (model used in float32, then .double(): must equal the twin converted before its first call); construction-time default-dtype clause (twin built under a float64 default and loaded); non-representable RQ tail bounds; clamp-band twins of Logit / Sigmoid.inverse; integer constructor arguments",
     "All zoo families x moderate parameter policies (fresh, randn 0.3, randn 1) x |x| <= 6 / inside boxes, both directions, flows' "
     "log_prob, BatchNorm in training mode on uncentred data (running statistics compared too).",
     "Bound constants: 64 eps32 for the result, 16 eps32 |J| for outputs, 256 (1024 inverse) eps32 x sensitivity for log-dets; items with "
@@ -179,7 +179,7 @@ CHECKS["C18"] = (
     "icontract post-conditions (named predicates) installed at class level on the real Distribution.log_prob / sample / "
     "sample_and_log_prob and Flow.sample_and_log_prob, driven over all distribution and flow classes x num_samples x batch_size x "
     "context (incl. shape-changing image flows and context-free user bases); documented-rejection probes; duplicate-draw and two-sample KS "
-    "monitors for batched generation; shape contracts on the repository's own test-suite run under a class-level contract plugin; rejection probes over all row-count pairs and all (bad count, other count) combinations; scalar (label) context items of shape [rows] through nn.Embedding",
+    "monitors for batched generation; shape contracts on the repository's own test-suite run under a class-level contract plugin; rejection probes over all row-count pairs and all (bad count, other count) combinations; scalar (label) context items of shape [rows] through nn.Embedding; count rejections through sample_and_log_prob",
     "Shapes [rows] / [n,*event] / [rows,n,*event] are asserted on every call (incl. the library's internal ones) for num_samples 1,2,5,7 x "
     "batch_size none,1,2,3,5,7,8 x context none / 1 / 3 rows / embedding net x event shapes [1],[2],[3],[2,3],[2,1,2]; valid calls must not "
     "raise; mismatching context rows must give ValueError and counts in {0,-1,2.0,'3',None} TypeError; batched sampling must not "
@@ -204,7 +204,7 @@ CHECKS["C04"] = (
     "records the noise the base hands to the transform; every sample is recomputed row by row under its own context row), and "
     "Kolmogorov-Smirnov monitors (samples vs cumulative quadrature of exp(log_prob); recorded noise vs the base density), and a block-law "
     "monitor (block i of sample(n, ctx) vs the single-row call sample(n, ctx[i:i+1]) through log p(x|c_i) - log p(x|c_j): two-sample z / KS, "
-    "Gibbs' inequality) for conditional distributions and flows over conditional or context-free bases",
+    "Gibbs' inequality) for conditional distributions and flows over conditional or context-free bases; value-update phase with the same context objects; block law also drawn in batches; flows over a scalar event",
     "Typed flow programs (1-D / 2-D) and packaged flows x context none / 1 / 3 / 4 far-apart rows / embedding net x num_samples 1,2,7: "
     "returned log-probs must equal log_prob of that sample under that context row (1e-6), sample[i,j] must be the inverse of its recorded "
     "noise under context row i (1e-9) - which decides row repetition vs tiling exactly - and 2e5 (2e6) samples must pass KS at alpha 1e-9 "
